@@ -25,6 +25,8 @@ import (
 	"syscall"
 	"unsafe"
 
+	"github.com/antlr4-go/antlr/v4"
+	gen "github.com/xinchentechnote/fin-protoc/internal/grammar"
 	"github.com/xinchentechnote/fin-protoc/internal/model"
 	"github.com/xinchentechnote/fin-protoc/internal/parser"
 )
@@ -172,13 +174,30 @@ type DumpOut struct {
 	Panic        string              `json:"panic,omitempty"`
 }
 
-func dumpOne(text string) (out DumpOut) {
+func dumpOne(text string, viaFile bool) (out DumpOut) {
 	defer func() {
 		if r := recover(); r != nil {
 			out = DumpOut{Panic: fmt.Sprint(r)}
 		}
 	}()
-	p, stream, _ := parser.NewPacketDslParserByContent(text)
+	var p *gen.PacketDslParser
+	var stream *antlr.CommonTokenStream
+	if viaFile {
+		// the way the CLI reads a DSL: through the repository's own file reader
+		f, err := os.CreateTemp("", "zzverif*.dsl")
+		if err != nil {
+			return DumpOut{Panic: "helper: " + err.Error()}
+		}
+		defer os.Remove(f.Name())
+		f.WriteString(text)
+		f.Close()
+		p, stream, err = parser.NewPacketDslParserByFile(f.Name())
+		if err != nil {
+			return DumpOut{Panic: "NewPacketDslParserByFile: " + err.Error()}
+		}
+	} else {
+		p, stream, _ = parser.NewPacketDslParserByContent(text)
+	}
 	l := parser.NewSyntaxErrorListener()
 	p.RemoveErrorListeners()
 	p.AddErrorListener(l)
@@ -468,14 +487,15 @@ func main() {
 	switch mode {
 	case "dump":
 		var in struct {
-			Texts []string `json:"texts"`
+			Texts   []string `json:"texts"`
+			ViaFile bool     `json:"via_file"`
 		}
 		if err := dec.Decode(&in); err != nil {
 			fmt.Fprintln(os.Stderr, err)
 			os.Exit(2)
 		}
 		for _, t := range in.Texts {
-			enc.Encode(dumpOne(t))
+			enc.Encode(dumpOne(t, in.ViaFile))
 		}
 	case "run":
 		var in RunIn
